@@ -183,13 +183,34 @@ func SolveAll(obls []*Obligation, dir string, timeoutS int, confirm bool, par in
 	os.MkdirAll(dir, 0o755)
 	var wg sync.WaitGroup
 	sem := make(chan struct{}, par)
+	// When a change breaks something many obligations share (a table initialiser with hundreds of
+	// postconditions), each of them runs into the time limit. After a few undecided obligations in
+	// the same group (function and kind) the rest of that group get a short limit: their verdict
+	// (undecided) is the same, the check stays within minutes.
+	var mu sync.Mutex
+	unknowns := map[string]int{}
 	for _, o := range obls {
 		wg.Add(1)
 		sem <- struct{}{}
 		go func(o *Obligation) {
 			defer wg.Done()
 			defer func() { <-sem }()
-			o.Solve(dir, timeoutS, confirm)
+			g := group(o.Name)
+			t := timeoutS
+			mu.Lock()
+			if unknowns[g] >= 6 && t > 2 && !confirm {
+				t = 2
+			}
+			mu.Unlock()
+			o.Solve(dir, t, confirm)
+			if o.Status == "unknown" {
+				mu.Lock()
+				unknowns[g]++
+				mu.Unlock()
+				if t != timeoutS {
+					o.Note += fmt.Sprintf(" [short time limit %ds: %d obligations of this group were already undecided at %ds]", t, 6, timeoutS)
+				}
+			}
 		}(o)
 	}
 	wg.Wait()
